@@ -62,7 +62,7 @@ def run(ctx):
             res.ok("R14.1", "unchecked-read-ok|" + c.body.q, c.where(), "unchecked bound but every writer clamps to items.len()")
     # seek: saturating signed arithmetic then clamp
     sk = fx.body("clap_lex::RawArgs::seek")
-    res.check(len(sk.calls_to(r"i64::saturating_add$")) >= 2 and len(sk.calls_to(r"Ord>?::max$")) >= 2 and len(sk.calls_to(r"Ord>?::min$")) >= 1,
+    res.check(len(sk.calls_to(r"i64::saturating_add$")) >= 2 and len(sk.calls_to(r"Ord>?::max$", r"cmp::max$")) >= 2 and len(sk.calls_to(r"Ord>?::min$", r"cmp::min$")) >= 1,
               "R14.1", "seek-saturating", sk.where(), "seek uses saturating_add + max(0) + min(len)", "seek no longer saturates/clamps its arithmetic")
 
     # seek bases: Start -> pos, End -> len + pos, Current -> cursor + pos (table over the SeekFrom arms)
